@@ -10,6 +10,7 @@ import EPV.Gen.SedovRunSing
 import EPV.Gen.SedovRunStd
 import EPV.Gen.SedovRunVac
 import EPV.Tactics
+import EPV.Lemmas.Bridge.SemiTac
 
 set_option linter.all false
 set_option maxRecDepth 100000
@@ -30,20 +31,21 @@ def vacToShock (p : SedovRunVac.P) : SedovShock.P :=
 /-- pins: in each run model `c0` is the NaN guard and `c1` is the pre/post-shock selection
 `rwant <= self.r2` with the same r2 expression as the generated `SedovShock` (a change of the
 traced decision order breaks these, not the theorems silently) -/
-theorem runSing_c0 (p : SedovRunSing.P) (r t : ℝ) : SedovRunSing.c0 p r t ↔ t ≤ 0 := Iff.rfl
+theorem runSing_c0 (p : SedovRunSing.P) (r t : ℝ) : SedovRunSing.c0 p r t ↔ t ≤ 0 := by epv_semi_bridge_cond
 theorem runSing_c1 (p : SedovRunSing.P) (r t : ℝ) :
     SedovRunSing.c1 p r t ↔ r ≤ SedovShock.L1.r2 (singToShock p) t := Iff.rfl
-theorem runStd_c0 (p : SedovRunStd.P) (r t : ℝ) : SedovRunStd.c0 p r t ↔ t ≤ 0 := Iff.rfl
+theorem runStd_c0 (p : SedovRunStd.P) (r t : ℝ) : SedovRunStd.c0 p r t ↔ t ≤ 0 := by epv_semi_bridge_cond
 theorem runStd_c1 (p : SedovRunStd.P) (r t : ℝ) :
     SedovRunStd.c1 p r t ↔ r ≤ SedovShock.L1.r2 (stdToShock p) t := Iff.rfl
 theorem runStd_c3 (p : SedovRunStd.P) (r t : ℝ) :
     SedovRunStd.c3 p r t ↔ 0 ≤ SedovShock.L1.r2 (stdToShock p) t := Iff.rfl
-theorem runVac_c0 (p : SedovRunVac.P) (r t : ℝ) : SedovRunVac.c0 p r t ↔ t ≤ 0 := Iff.rfl
+theorem runVac_c0 (p : SedovRunVac.P) (r t : ℝ) : SedovRunVac.c0 p r t ↔ t ≤ 0 := by epv_semi_bridge_cond
 theorem runVac_c1 (p : SedovRunVac.P) (r t : ℝ) :
     SedovRunVac.c1 p r t ↔ r ≤ SedovShock.L1.r2 (vacToShock p) t := Iff.rfl
 
 theorem shock_r2_of_pos (q : SedovShock.P) {t : ℝ} (ht : 0 < t) : SedovShock.r2 q t = SedovShock.L1.r2 q t := by
-  simp only [epv_tree, epv_cond, not_le.mpr ht, if_false]
+  simp only [epv_tree]
+  epv_semi_prune
 
 end
 
